@@ -16,8 +16,8 @@ PROPS = {
               "Non-trivial: length mismatch, window strictly inside its root, partial last frame with >=2 channels, "
               "nil/empty/uneven striped member, S != B, or write-then-read round trip. Distinct = distinct 64-bit "
               "fingerprint of the canonical case."),
-        quick=dict(rapid=dict(checks=60000, shards=2)),
-        thorough=dict(rapid=dict(checks=300000, shards=16), fuzz=dict(targets=["FuzzC01"], seconds=45)),
+        quick=dict(rapid=dict(checks=100000, shards=8)),
+        thorough=dict(rapid=dict(checks=400000, shards=16), fuzz=dict(targets=["FuzzC01"], seconds=45)),
         assumptions=COMMON_ASSUME,
         technique="property-based testing (rapid) + bounded-exhaustive sweep + native fuzzing against a plain-slice reference model with whole-storage frame condition",
         level_text=("Generated-input search: every reader/writer call is compared with a plain-slice model of the whole root storage "
@@ -35,8 +35,8 @@ PROPS["C02"] = dict(
           "probed by writing stamps through the child and reading through parent and root and back, capacity region read through a "
           "capacity-long reslice, parent header and root storage unchanged; invalid ranges must panic and change nothing. "
           "Non-trivial: end beyond parent length, nesting depth >= 2, parent is an offset window, invalid range, overflowing argument."),
-    quick=dict(rapid=dict(checks=40000, shards=2)),
-    thorough=dict(rapid=dict(checks=200000, shards=16), fuzz=dict(targets=["FuzzC02"], seconds=30)),
+    quick=dict(rapid=dict(checks=100000, shards=8)),
+    thorough=dict(rapid=dict(checks=300000, shards=16), fuzz=dict(targets=["FuzzC02"], seconds=30)),
     assumptions=COMMON_ASSUME,
     technique="property-based testing (rapid) + bounded-exhaustive two-level sweep against a Go-slice view model with bidirectional sharing probes",
     level_text=("Generated-input search over nested Slice chains, valid and invalid, against an (offset,len,cap) model; exhaustive for "
@@ -52,8 +52,8 @@ PROPS["C03"] = dict(
           "in place: Cap unchanged, appended samples read through the sibling view, whole root equals the model; growth: every storage "
           "the destination left is unchanged, also after stamping the destination's whole new capacity. Non-trivial: growth, in-place "
           "append seen through another view, non-empty self-append, >=2 appends, exact fit, one frame short."),
-    quick=dict(rapid=dict(checks=40000, shards=2)),
-    thorough=dict(rapid=dict(checks=150000, shards=16), fuzz=dict(targets=["FuzzC03"], seconds=30)),
+    quick=dict(rapid=dict(checks=60000, shards=8)),
+    thorough=dict(rapid=dict(checks=200000, shards=16), fuzz=dict(targets=["FuzzC03"], seconds=30)),
     assumptions=COMMON_ASSUME,
     technique="property-based testing (rapid) + bounded-exhaustive sweep against a plain-slice storage model with aliasing views and independence stamps",
     level_text=("Generated-input search over destination/source shape combinations and repeated appends against a storage-graph model; "
@@ -67,8 +67,8 @@ PROPS["C04"] = dict(
           "the value lands at interleaved position Len (read back through the root alias, proving storage identity), Len+=1, Length=ceil(Len/C); "
           "at Len==Cap nothing changes; Cap constant; whole root storage compared with the model (nothing outside the window's capacity written). "
           "Non-trivial: N crosses the capacity, window starts at a later frame, zero capacity, or partial frames with >=2 channels."),
-    quick=dict(rapid=dict(checks=40000, shards=2)),
-    thorough=dict(rapid=dict(checks=150000, shards=16), fuzz=dict(targets=["FuzzC04"], seconds=30)),
+    quick=dict(rapid=dict(checks=60000, shards=8)),
+    thorough=dict(rapid=dict(checks=200000, shards=16), fuzz=dict(targets=["FuzzC04"], seconds=30)),
     assumptions=COMMON_ASSUME,
     technique="property-based testing (rapid) + bounded-exhaustive sweep against a sequence model with whole-storage frame condition",
     level_text=("Generated call sequences against a sequence model; exhaustive for all 13 types, C<=4, roots <=3 (5) frames, all windows, every call "
@@ -84,8 +84,8 @@ PROPS["C05"] = dict(
           "source root, destination root outside the common prefix and all headers unchanged (whole-storage snapshots); result k equals the same "
           "sample converted alone in a fresh 1-sample buffer (position-wise law); floating-to-floating additionally equals Go's conversion "
           "bit for bit. Non-trivial: length mismatch, window source/destination, >=2 channels, partial frame, float beyond [-1,1]/non-finite."),
-    quick=dict(rapid=dict(checks=40000, shards=2)),
-    thorough=dict(rapid=dict(checks=250000, shards=16), fuzz=dict(targets=["FuzzC05"], seconds=45)),
+    quick=dict(rapid=dict(checks=80000, shards=8)),
+    thorough=dict(rapid=dict(checks=300000, shards=16), fuzz=dict(targets=["FuzzC05"], seconds=45)),
     assumptions=COMMON_ASSUME,
     technique="property-based testing (rapid) + bounded-exhaustive shape sweep: whole-storage frame condition plus metamorphic single-sample re-conversion; direct oracle for float-to-float",
     level_text=("Generated-input search over all 169 instantiations; exhaustive over all window pairs of roots <=2 (3) frames, C<=3, per instantiation; "
@@ -98,7 +98,7 @@ PROPS["C13"] = dict(
           "(same or different shape). Oracle: Channels/Length/Capacity/Len=C*L/Cap=C*K, BitDepth = 8*sizeof(T) computed by the harness, every "
           "sample over Slice(0,K) zero, and independence by stamping one allocation's whole capacity and re-reading the other, both ways. "
           "Non-trivial: L<K (zero fill beyond the length observable), named type, or >=2 channels."),
-    quick=dict(rapid=dict(checks=20000, shards=2)),
+    quick=dict(rapid=dict(checks=20000, shards=8)),
     thorough=dict(rapid=dict(checks=100000, shards=16), fuzz=dict(targets=["FuzzC13"], seconds=20)),
     assumptions=COMMON_ASSUME,
     technique="property-based testing (rapid) + bounded-exhaustive shape sweep with zero-fill and independence stamps",
@@ -113,8 +113,8 @@ PROPS["C14"] = dict(
           "view.SetSample(i,v) changes exactly that root position (whole-storage diff) and reads back v through the view; Channels()=1, "
           "Length/Capacity = parent's; BufferIndex(c,i) = C*i+c. Non-trivial: C>=2 and (c != 1 or i >= 1) - what the suite's self-cancelling "
           "comparison on channel 1 cannot see - or a parent starting at a later frame."),
-    quick=dict(rapid=dict(checks=20000, shards=2)),
-    thorough=dict(rapid=dict(checks=100000, shards=16), fuzz=dict(targets=["FuzzC14"], seconds=20)),
+    quick=dict(rapid=dict(checks=40000, shards=8)),
+    thorough=dict(rapid=dict(checks=150000, shards=16), fuzz=dict(targets=["FuzzC14"], seconds=20)),
     assumptions=COMMON_ASSUME,
     technique="property-based testing (rapid) + exhaustive sweep over channels/indices against harness-computed interleaved positions with whole-storage diff",
     level_text=("Exhaustive over 13 types x C 1..8 x roots <=6 (9) frames x all windows x every channel x every index; larger parents sampled."),
@@ -129,8 +129,8 @@ PROPS["C15"] = dict(
           "Oracle: the call panics; afterwards both operands' whole root storage, headers and the caller's slices are unchanged; for Put the "
           "rejected buffer is intact (not cleared) and the next three Gets return allocator-shaped zeroed buffers. Every case is a mismatch "
           "by construction; distinct = distinct (entry point, types, shapes)."),
-    quick=dict(rapid=dict(checks=20000, shards=2)),
-    thorough=dict(rapid=dict(checks=100000, shards=16), fuzz=dict(targets=["FuzzC15"], seconds=20)),
+    quick=dict(rapid=dict(checks=40000, shards=8)),
+    thorough=dict(rapid=dict(checks=150000, shards=16), fuzz=dict(targets=["FuzzC15"], seconds=20)),
     assumptions=COMMON_ASSUME,
     technique="bounded-exhaustive cross product of guarded entry points x shape mismatches + property-based testing (rapid); oracle = panic observed by recover plus whole-state snapshots",
     level_text=("Exhaustive cross product: 169 conversions + Append x all ordered pairs of different channel counts 1..4 x 3 shapes; striped forms x 169 "
@@ -146,8 +146,8 @@ PROPS["C20"] = dict(
           "Oracle: no panic; sizes 0 for zero-channel/zero-capacity buffers; every read/write/conversion returns 0 and leaves caller slices, "
           "partner storage and the buffer's capacity region untouched; AppendSample/Append(empty) leave Len 0; ChannelLength(n,0) in [0,n]. "
           "Every case is degenerate by construction; distinct = distinct (entry point, shape, types, lengths)."),
-    quick=dict(rapid=dict(checks=20000, shards=2)),
-    thorough=dict(rapid=dict(checks=100000, shards=16), fuzz=dict(targets=["FuzzC20"], seconds=20)),
+    quick=dict(rapid=dict(checks=50000, shards=8)),
+    thorough=dict(rapid=dict(checks=200000, shards=16), fuzz=dict(targets=["FuzzC20"], seconds=20)),
     assumptions=COMMON_ASSUME,
     technique="bounded-exhaustive cross product of entry points x degenerate shapes + property-based testing (rapid); oracle = no panic, zero counts, whole-state snapshots",
     level_text=("Exhaustive cross product of every exported entry point x every degenerate allocator on a small grid x all types/pairs/instantiations; "
@@ -167,8 +167,8 @@ PROPS["C06"] = dict(
           "biased to 32/64-bit sources. Oracle: over the amplitudes sorted ascending the result amplitudes never decrease; lowest->lowest, "
           "highest->highest, zero-amplitude->zero-amplitude. Non-trivial: depths differ, signedness differs, or a code the examples do not pin; "
           "exhaustively enumerated points are distinct by construction."),
-    quick=dict(rapid=dict(checks=30000, shards=4)),
-    thorough=dict(rapid=dict(checks=150000, shards=16), fuzz=dict(targets=["FuzzC06"], seconds=30), timeout=3600),
+    quick=dict(rapid=dict(checks=60000, shards=8)),
+    thorough=dict(rapid=dict(checks=250000, shards=16), fuzz=dict(targets=["FuzzC06"], seconds=30), timeout=3600),
     assumptions=NUM_ASSUME,
     technique="exhaustive enumeration of all 8/16/32-bit source codes in amplitude order + property-based testing (rapid) on 64-bit sources; order and reference-level oracle in exact integer arithmetic",
     level_text=("Complete enumeration of every 8- and 16-bit source code (quick) and every 32-bit source code (thorough) for all destinations decides order "
@@ -181,8 +181,8 @@ PROPS["C07"] = dict(
     rule=("Same domain as C06. Oracle: narrowing by k bits: result amplitude in {floor(a/2^k), ceil(a/2^k)}; equal depth: result amplitude = a; "
           "widening: converting back with the conversion into every element type of the source's format returns the original amplitude. "
           "Non-trivial: every code other than the five the examples pin; classes narrowing / equalDepth / widenAndBack / signednessDiffers."),
-    quick=dict(rapid=dict(checks=30000, shards=4)),
-    thorough=dict(rapid=dict(checks=150000, shards=16), fuzz=dict(targets=["FuzzC07"], seconds=30), timeout=3600),
+    quick=dict(rapid=dict(checks=60000, shards=8)),
+    thorough=dict(rapid=dict(checks=250000, shards=16), fuzz=dict(targets=["FuzzC07"], seconds=30), timeout=3600),
     assumptions=NUM_ASSUME,
     technique="exhaustive enumeration of all 8/16/32-bit source codes + property-based testing (rapid) on 64-bit sources; floor/ceil accuracy oracle and widen-then-narrow round trip in exact integer arithmetic",
     level_text=("Complete enumeration of every 8/16-bit (quick) and 32-bit (thorough) source code for all 11 destinations, including every widen-and-back "
@@ -199,8 +199,8 @@ PROPS["C08"] = dict(
           "boundary (k or k+-0.5)/full scale of the destination. Oracle: x>=1 -> highest code, x<=-1 -> lowest, 0 -> zero amplitude, otherwise "
           "|amplitude - x*FS| <= 1 decided exactly with a 128-bit product; codes non-decreasing over sorted inputs. Non-trivial: |x|>=1.5, infinite, "
           "adjacent to +-1, destination narrower than 64 bits."),
-    quick=dict(rapid=dict(checks=30000, shards=4)),
-    thorough=dict(rapid=dict(checks=200000, shards=16), fuzz=dict(targets=["FuzzC08"], seconds=45), timeout=3600),
+    quick=dict(rapid=dict(checks=60000, shards=8)),
+    thorough=dict(rapid=dict(checks=300000, shards=16), fuzz=dict(targets=["FuzzC08"], seconds=45), timeout=3600),
     assumptions=NUM_ASSUME + ["NaN inputs are excluded (result unspecified by the property)", "the verdict is for linux/amd64, where the library relies on the platform's float-to-integer conversion for in-range negative inputs to unsigned types"],
     technique="exhaustive enumeration of all float32 bit patterns (thorough) + boundary-dense sweep + property-based testing (rapid) and native fuzzing; clip/linearity/monotonicity oracle decided with exact 128-bit arithmetic",
     level_text=("Every non-NaN float32 input for all 11 float32-source instantiations is enumerated in numeric order (thorough), which decides clipping, accuracy and "
@@ -216,8 +216,8 @@ PROPS["C09"] = dict(
           "into float64 distinct codes give distinct values and FloatAsSigned/FloatAsUnsigned back into the source type returns the code; through float32 "
           "with d<=16 the round trip is within one step. Known finding F9 is recognised by its structural predicate and excluded so the sweep continues. "
           "Non-trivial: codes the examples do not pin, round-trip cases, depth>=16."),
-    quick=dict(rapid=dict(checks=30000, shards=4)),
-    thorough=dict(rapid=dict(checks=150000, shards=16), fuzz=dict(targets=["FuzzC09"], seconds=30), timeout=3600),
+    quick=dict(rapid=dict(checks=60000, shards=8)),
+    thorough=dict(rapid=dict(checks=250000, shards=16), fuzz=dict(targets=["FuzzC09"], seconds=30), timeout=3600),
     assumptions=NUM_ASSUME,
     technique="exhaustive enumeration of all 8/16/32-bit source codes + property-based testing (rapid) on 64-bit sources; range/level/order/accuracy oracle and round trip through the inverse conversion",
     level_text=("Complete enumeration of every 8/16-bit (quick) and 32-bit (thorough) code into both float types, with injectivity and round trips; 64-bit sources "
@@ -230,7 +230,7 @@ PROPS["C16"] = dict(
           "all 64 depths; rapid: values around the depth's own bounds and uniform random) x a Scale[T](h,l) query (sweep: all pairs h>=l in 1..64 x the 11 "
           "integer types). Oracle (math/big): Max/Min/MaxUnsigned = 2^(b-1)-1, -2^(b-1), 2^b-1; Signed/UnsignedValue = clamp, idempotent, order-preserving "
           "on sorted inputs; Scale = 2^(h-l) whenever that fits T. Non-trivial: any depth other than 8 (the only one the examples touch), or a Scale query."),
-    quick=dict(rapid=dict(checks=30000, shards=2)),
+    quick=dict(rapid=dict(checks=80000, shards=8)),
     thorough=dict(rapid=dict(checks=400000, shards=16), fuzz=dict(targets=["FuzzC16"], seconds=20)),
     assumptions=COMMON_ASSUME,
     technique="exhaustive enumeration of all 64 depths x boundary values and all Scale depth pairs x types + property-based testing (rapid), compared with math/big",
@@ -245,7 +245,7 @@ PROPS["C17"] = dict(
           "512. Oracle (exact math/big.Rat, f taken as the exact float64): |Duration(n) - n*10^9/f| <= 1/2 + 2^-50*exact ns, |Events(d) - f*d/10^9| <= 1/2 + "
           "2^-50*exact, both non-decreasing (n vs n+1, d vs d+1, along sorted samples), and for f<=10^6 Events(Duration(n)) == n. Non-trivial: the exact value "
           "is not an integer (rounding direction matters); sub-class within 10^-3 of a tie."),
-    quick=dict(rapid=dict(checks=30000, shards=4)),
+    quick=dict(rapid=dict(checks=60000, shards=8)),
     thorough=dict(rapid=dict(checks=300000, shards=16), fuzz=dict(targets=["FuzzC17"], seconds=20)),
     assumptions=COMMON_ASSUME + ["'plus float rounding' is taken as a relative 2^-50 of the exact value (two float64 roundings)"],
     technique="property-based testing (rapid) with tie-seeking generators + deterministic grid over standard rates, compared with exact rational arithmetic",
@@ -260,7 +260,7 @@ PROPS["C10"] = dict(
           "Channels/Length/Capacity/Len/Cap/BitDepth equal a fresh Alloc's and every sample over Slice(0,K) is zero; after every step every outstanding buffer "
           "still reads its own ownership stamp plus its own writes over its whole capacity (no shared storage). Non-trivial: a get that returned a recycled "
           "object (pointer previously passed to Put); sub-classes recycled after dirty use, after reslice-to-shorter, with L>0, several outstanding."),
-    quick=dict(rapid=dict(checks=15000, shards=4)),
+    quick=dict(rapid=dict(checks=20000, shards=8)),
     thorough=dict(rapid=dict(checks=100000, shards=16), fuzz=dict(targets=["FuzzC10"], seconds=30)),
     assumptions=COMMON_ASSUME + ["sync.Pool hands a just-put object back to the same goroutine almost always; the class histogram in the evidence shows how often a recycled buffer was observed"],
     technique="model-based stateful property testing (rapid-generated operation histories, shrunk as one value) + bounded-exhaustive get/use/reslice/put/get sweep; freshness and ownership-stamp invariants after every step",
@@ -278,7 +278,7 @@ PROPS["C12"] = dict(
           "Len/Cap/Length/Capacity, every sample in [0,Len) and, through a capacity-long reslice, every position in [Len,Cap) equal the model's; capacity after a "
           "growing append is read from the implementation and only constrained. Non-trivial: a mutation through a view while another view of the same storage is "
           "alive; sub-classes growing append with a live old-storage view, AppendSample into a sibling's range, slice beyond length, self-append, rejected slice."),
-    quick=dict(rapid=dict(checks=6000, shards=4)),
+    quick=dict(rapid=dict(checks=8000, shards=8)),
     thorough=dict(rapid=dict(checks=60000, shards=16), fuzz=dict(targets=["FuzzC12"], seconds=60), timeout=3600),
     assumptions=COMMON_ASSUME + ["capacity chosen by a growing Append is the Go runtime's; the model reads it from the implementation (>= length, whole frames when the length is)",
                                  "an in-place Append may trim a non-frame-aligned capacity to the frame multiple (library alignment); both outcomes are accepted"],
@@ -294,7 +294,7 @@ PROPS["C18"] = dict(
           "conversions (169 instantiations), Append within capacity, channel view get/set, pool Get-use-Put cycle, Slice (local and escaping). Oracle: "
           "testing.AllocsPerRun(100, op) == 0, escaping Slice <= 1; everything the closure needs is allocated beforehand and headers are restored by struct "
           "assignment. Non-trivial: frames >= 1 (the operation does work); distinct = distinct (operation, types, shape)."),
-    quick=dict(rapid=dict(checks=3000, shards=2)),
+    quick=dict(rapid=dict(checks=4000, shards=4)),
     thorough=dict(rapid=dict(checks=30000, shards=8)),
     assumptions=COMMON_ASSUME + ["escape analysis and inlining are compiler decisions: the verdict is for go1.23.5 and the generated instantiations/shapes",
                                  "non-race build, one process per shard (AllocsPerRun pins GOMAXPROCS to 1 and reads process-wide malloc counters)"],
@@ -310,8 +310,8 @@ PROPS["C11"] = dict(
           "detector stays silent; every obtained buffer has the allocator's shape and reads zero over its whole capacity; each goroutine writes its (goroutine, cycle) "
           "stamp over the whole capacity, yields, and re-reads it before Put - a foreign value means two holders. Non-trivial: G>=4 with GOMAXPROCS>=2 and at least one "
           "recycled buffer observed; also counted: by-value copies, GC during the run."),
-    quick=dict(rapid=dict(checks=120, shards=4), timeout=900),
-    thorough=dict(rapid=dict(checks=1000, shards=8), timeout=3600),
+    quick=dict(rapid=dict(checks=150, shards=8), timeout=900),
+    thorough=dict(rapid=dict(checks=1000, shards=12), timeout=3600),
     assumptions=COMMON_ASSUME + ["schedules are sampled by the Go scheduler, not enumerated; a failing schedule cannot be replayed deterministically (replay re-runs the case repeatedly)",
                                  "the race detector reports unordered conflicting accesses that actually executed; it does not need the unlucky interleaving to corrupt data"],
     technique="randomised concurrent stress under the Go race detector with rapid-generated configurations (goroutines, GOMAXPROCS, yield points, GC); freshness and ownership-stamp oracle",
@@ -329,8 +329,8 @@ PROPS["C19"] = dict(
           "no synchronisation besides a start barrier and the WaitGroup. Oracle: race detector silent; every reader result equals the same script run sequentially beforehand; "
           "afterwards the whole buffer equals the sequential execution of the writers' scripts and the header is unchanged. Non-trivial: R>=2 and W>=2 with GOMAXPROCS>=2 "
           "(sub-classes concurrentReaders, concurrentDisjointWriters)."),
-    quick=dict(rapid=dict(checks=200, shards=4), timeout=900),
-    thorough=dict(rapid=dict(checks=1500, shards=8), timeout=3600),
+    quick=dict(rapid=dict(checks=250, shards=8), timeout=900),
+    thorough=dict(rapid=dict(checks=1500, shards=12), timeout=3600),
     assumptions=COMMON_ASSUME + ["schedules are sampled by the Go scheduler, not enumerated; a failing schedule cannot be replayed deterministically (replay re-runs the case repeatedly)",
                                  "the race detector reports unordered conflicting accesses that actually executed"],
     technique="randomised concurrent stress under the Go race detector with rapid-generated reader/writer scripts; differential oracle against the sequential execution of the same scripts",
